@@ -29,12 +29,12 @@ TIERS = {
     'quick': {'shards': 14, 'random': 2800, 'timeout': 900, 'min_cases': 1800, 'max_timeouts': 3,
               'require_branches': ['input:closed', 'input:open', 'joint:line-line', 'joint:line-curve', 'joint:curve-line',
                                    'joint:curve-curve', 'joint:already-smooth', 'input:control-point-on-joint',
-                                   'input:single-segment', 'segments-shorter-than-joint', 'corner:slight', 'lengths:uneven']},
+                                   'input:single-segment', 'segments-shorter-than-joint', 'corner:slight', 'lengths:uneven', 'input:short-handle', 'closing-joint:smooth']},
     'thorough': {'shards': 14, 'random': 100000, 'timeout': 3400, 'min_cases': 60000, 'max_timeouts': 50,
                  'require_branches': ['input:closed', 'input:open', 'joint:line-line', 'joint:line-curve',
                                       'joint:curve-line', 'joint:curve-curve', 'joint:already-smooth',
                                       'input:control-point-on-joint', 'input:single-segment',
-                                      'segments-shorter-than-joint', 'corner:slight', 'lengths:uneven']},
+                                      'segments-shorter-than-joint', 'corner:slight', 'lengths:uneven', 'input:short-handle', 'closing-joint:smooth']},
 }
 CASE_TIMEOUT = 60
 
@@ -335,7 +335,15 @@ def _gen_path(rng, mj):
             elif m < 0.24:
                 c2 = b
                 cls.add('input:control-point-on-joint')
-            elif m < 0.45 and specs:
+            elif m < 0.32:
+                # a short (but non-zero) handle at the joint: 1e-3 .. 1e-1 of the joint size
+                hl = mj * 10.0 ** rng.uniform(-3, -1)
+                if rng.random() < 0.5:
+                    c1 = a + (c1 - a) / abs(c1 - a) * hl
+                else:
+                    c2 = b + (c2 - b) / abs(c2 - b) * hl
+                cls.add('input:short-handle')
+            elif m < 0.5 and specs:
                 # already smooth joint: leave the previous segment's end direction
                 prev = specs[-1]
                 pe = complex(*prev[-1])
@@ -345,6 +353,18 @@ def _gen_path(rng, mj):
                     c1 = a + dirn * L * rng.uniform(0.2, 0.5)
                     cls.add('smooth-by-construction')
             specs.append(['C', [a.real, a.imag], [c1.real, c1.imag], [c2.real, c2.imag], [b.real, b.imag]])
+    if closed and specs[-1][0] == 'C' and rng.random() < 0.4:
+        # the closing joint is already smooth: the last segment arrives in the direction the first one leaves
+        f0 = specs[0]
+        d0 = complex(*f0[2]) - complex(*f0[1])
+        if d0 == 0 and len(f0) > 3:
+            d0 = complex(*f0[3]) - complex(*f0[1])
+        if d0 != 0:
+            b = complex(*specs[-1][4])
+            Ll = abs(b - complex(*specs[-1][1]))
+            c2 = b - d0 / abs(d0) * Ll * rng.uniform(0.2, 0.5)
+            specs[-1][3] = [c2.real, c2.imag]
+            cls.add('closing-joint:smooth')
     if slight:
         cls.add('corner:slight')
     if uneven:
@@ -374,7 +394,8 @@ def run_case(ctx, case):
     import svgpathtools.smoothing as S
     p = gen.path(case['segs'])
     for c in case['cls']:
-        if c in ('input:control-point-on-joint', 'segments-shorter-than-joint', 'corner:slight', 'lengths:uneven'):
+        if c in ('input:control-point-on-joint', 'segments-shorter-than-joint', 'corner:slight', 'lengths:uneven',
+                 'input:short-handle', 'closing-joint:smooth'):
             ctx.branch(c)
     if len(p) > 1 and not in_scope(p):
         raise core.Skip('generated path outside the statement (reversal or degenerate)')
